@@ -36,6 +36,7 @@ VIOLATION line showing the smallest one.
 import itertools, json, os, glob, collections
 from harness.lib import oracle as O, impl as I, gen_reference as G
 from harness.props import c07gen as GN
+from harness.props import c07parsers as PP
 
 PROPERTY = 'C07'
 ROOT = os.path.dirname(os.path.dirname(os.path.dirname(os.path.abspath(__file__))))
@@ -348,7 +349,7 @@ def condense(viol):
     for f, (v, cnt) in by_f.items():
         v = dict(v); v['what'] = '[mechanism of the fixed defect %s is back; %d instances this run; smallest shown] %s' % (f, cnt, v['what'])
         out.append(v)
-    others.sort(key=lambda v: v.get('_size', (9, 9, 9)))
+    others.sort(key=lambda v: tuple(v.get('_size', (9, 9, 9))))
     out += others[:5]
     if len(others) > 5:
         out[-1] = dict(out[-1]); out[-1]['what'] += ' (+%d more violations not listed)' % (len(others) - 5)
@@ -378,13 +379,13 @@ def corpus_cases():
             obj = json.load(open(p))
         except Exception:  # noqa
             continue
-        if obj.get('kind') == 'c07case':
+        if obj.get('kind') in ('c07case', 'c07parser'):
             out.append((os.path.basename(p), obj))
     return out
 
 def run(ctx):
     shape = shape_info()
-    n = int(os.environ.get('VERIF_C07_WORLDS', 40 if ctx.quick else 400))
+    n = int(os.environ.get('VERIF_C07_WORLDS', 20 if ctx.quick else 400))
     stats = collections.Counter()
     viol, samples = [], []
     dist = collections.Counter()
@@ -416,9 +417,19 @@ def run(ctx):
                 samples.append({'units': [u['uid'] for u in c['units']], 'invalid': c.get('invalid', []),
                                 'raw_sizes': {str(k): len(v) for k, v in raw.items()}, 'runs': len(runs)})
     # ---- accepter-invalid stream (separate, small)
-    av, ast_ = acc_invalid_stream(ctx, shape, 4 if ctx.quick else 24)
+    av, ast_ = acc_invalid_stream(ctx, shape, 3 if ctx.quick else 24)
     viol += av
     stats.update(ast_)
+    # ---- the parsers' --skip-failed
+    pv, pst, pdist = PP.run_stream(ctx, int(os.environ.get('VERIF_C07_PARSER_CASES', 120 if ctx.quick else 1600)))
+    viol += pv
+    stats.update(pst)
+    stats['runs'] += pst['parser_runs']; stats['nontrivial'] += pst['parser_nontrivial']
+    pshapes = PP.shapes_info()
+    for t, x in pshapes.items():
+        if not x['modelled']:
+            viol.append({'what': 'the record loop of the %s CLI read from the source is not a modelled shape' % PP.CMD_NAME[t],
+                         'replay_obj': {'kind': 'correspondence', 'name': 'corr:C07/parser_shape/' + t}, 'no_input': True})
     if not shape['known']:
         viol.append({'what': 'the failure-handling skeleton read from the source is none of the modelled shapes: %r' % (shape['raw'],),
                      'replay_obj': {'kind': 'correspondence', 'name': 'corr:C07/wrapper_shape', 'example': shape['raw']},
@@ -426,9 +437,11 @@ def run(ctx):
     return {
         'evaluations': stats['runs'], 'distinct_nontrivial': stats['nontrivial'],
         'rule': 'a run (case, failure set F, --skip-failed, threads) is non-trivial when F is non-empty and both a failing and a '
-                'non-failing unit have a non-empty measured raw peptide set (isolation is observable)',
+                'non-failing unit have a non-empty measured raw peptide set (isolation is observable); a parser run (table, subset of '
+                'failing rows kept, flag) is non-trivial when it holds a failing row and a row that converts to records',
         'samples': samples, 'violations': condense(viol), 'distribution': dict(dist), 'stats': dict(stats),
         'source_shape': {k: shape[k] for k in ('known', 'fixed', 'orig', 'd4', 'acc_unguarded')},
+        'parser_shapes': pshapes, 'parser_distribution': dict(pdist),
         'assumptions': ['raw_k is measured by the run that fails every unit but k (threads 1, --skip-failed); a unit whose '
                         'measuring run does not complete is itself a violation of the statement',
                         'cleavage exception off (--cleavage-exception none): with trypsin_exception callVariant is known to be '
@@ -438,7 +451,9 @@ def run(ctx):
         'trusted_base': ['guarded fault-injection hook proposed_hooks/C07_fault.patch (raises ValueError at the entry of the '
                          'three per-unit callers)', 'generator harness/props/c07gen.py (GVF writers for SNV/INDEL, fusion, circRNA)',
                          'log capture of the tally lines in harness/impl/c07.py',
-                         'translator harness/translate/wrapper_shape.py (ast patterns of the failure-handling skeleton)'],
+                         'translator harness/translate/wrapper_shape.py (ast patterns of the failure-handling skeleton)',
+                         'parser stream: row renderers of harness/impl/c07p.py (tool table formats), library-level conversion '
+                         'as the ground truth of which row fails, translator harness/translate/parser_shape.py'],
     }
 
 def acc_invalid_stream(ctx, shape, n):
@@ -474,6 +489,8 @@ def is_acc_invalid(case, v):
 def replay(ctx, obj):
     if obj.get('kind') == 'correspondence' and isinstance(obj.get('example'), dict):
         obj = obj['example']
+    if obj.get('kind') == 'c07parser':
+        return {'violations': condense(PP.replay(ctx, obj))}
     if obj.get('kind') != 'c07case':
         return {'violations': []}
     shape = shape_info()
@@ -499,11 +516,20 @@ def replay(ctx, obj):
 def search_failing_input(ctx, broken):
     """an obligation of Props/C07.v no longer checks (the regenerated shape is not a modelled one, or a proof
     broke): look for a concrete input on which the statement fails on the implementation"""
+    best = None
+    if 'parser' in str(broken.get('theorem') or '') or 'ParserShape' in str(broken.get('why') or '') \
+            or 'ParserLoop' in str(broken.get('why') or ''):
+        pv, _, _ = PP.run_stream(ctx, 64)
+        for v in pv:
+            if not v.get('no_input') and (best is None or v.get('_size', (9, 9, 9)) < best.get('_size', (9, 9, 9))):
+                best = v
+        if best is not None:
+            r = dict(best['replay_obj']); r['what'] = best['what']
+            return r
     shape = shape_info()
     cases = gen_cases(ctx.rng, 8)
     crs = [(c, all_runs(c, threads=(1,))) for c in cases]
     outs = execute(ctx, crs, tag='c07srch')
-    best = None
     for (c, runs), o in zip(crs, outs):
         raw_v, st, raw = evaluate(ctx, c, runs, o, shape)
         for v in raw_v:
